@@ -26,6 +26,11 @@ MARKER_PROPS = {
     "VF:slice.": ["C01", "C02"],
     "VF:slice.forms.": ["C20"],
     "VF:slice_opt.": ["C01", "C02", "C03", "C05"],
+    "VF:slice_opt.forms.": ["C20"],
+    "VF:columns_coded.": ["C10"],
+    "VF:columns_coded.clear": ["C08"],
+    "VF:collapse.reserve": ["C11", "C10"],
+    "VF:collapse.huffman": ["C11"],
     "VF:owned.forms.": ["C20"],
     "VF:owned.forms.read": ["C20", "C01"],
     "VF:owned.forms.earlier_read_changed": ["C02"],
